@@ -22,9 +22,20 @@ def jterm(x, it):
     if isinstance(x, dict): return f"(JObj {lst(f'({q(k)}, {jterm(v, it)})' for k, v in x.items())})"
     raise ValueError(type(x))
 
+class DocumentChanged(Exception):
+    pass
+
 def roundtrip(m, cfg=False):
     doc = json.loads(json.dumps(m.to_json()))
-    return doc, (cc.StingyConfigurator.from_json(doc) if cfg else pg.from_json(doc))
+    load = cc.StingyConfigurator.from_json if cfg else pg.from_json
+    # the document is the caller's: it is loaded TWICE from the same dictionary object and has to be the same text afterwards;
+    # what is judged is the second load (for a loader that only reads, the same as the first)
+    text = json.dumps(doc, sort_keys=True)
+    load(doc)
+    m2 = load(doc)
+    if json.dumps(doc, sort_keys=True) != text:
+        raise DocumentChanged(f"from_json changed the document it was given: {text[:300]} -> {json.dumps(doc, sort_keys=True)[:300]}")
+    return doc, m2
 
 def doc_ids(doc, acc):
     """'id' fields of compound documents"""
